@@ -1593,8 +1593,11 @@ def harden_query(q, rng):
     if k in ("rr", "bw"):
         wl = h[2]; eoc = q[3][-1]
         cand = [i for i in range(len(wl)) if i != eoc]
-        if r < 0.7 or not cand:
+        if r < 0.62 or not cand:
             wl.append([rng.randint(1, 20), gen.gen_sporadic(rng), ["scalar", rng.randint(1, 4)], families.gen_kind(rng)]); return h, "add_callback"
+        if r < 0.8:          # the arrival curve of any callback (the analysed one included): more jitter / a shorter period
+            i = rng.randrange(len(wl)); wl[i][1], how = harden_ab(wl[i][1], rng); return h, ("eoc:" if i == eoc else "other:") + how
+        if r < 0.86 and wl[eoc][2][0] == "scalar": wl[eoc][2] = ["scalar", wl[eoc][2][1] + rng.randint(1, 3)]; return h, "eoc:wcet+"
         i = rng.choice(cand)
         if rng.random() < 0.5 and wl[i][2][0] == "scalar": wl[i][2] = ["scalar", wl[i][2][1] + rng.randint(1, 3)]; return h, "other:wcet+"
         wl[i][0] += rng.randint(1, 10); return h, "other:assumed_bound+"
@@ -1626,9 +1629,14 @@ class C17(Prop):
         n2 = ctx.scale(2500, 30000)
         while len(qs2) < 2 * n2:
             r = rng.random()
-            if r < 0.7: base = gen_ded_queries(rng, 1, ["periodic", "sporadic", "curve", "extrap", "propagated", "jitter"], 0.3)[0]
-            elif r < 0.85: base = families.q_ecrts(rng, None, True)[0]
-            else: base = families.q_rtss(rng, None, True)[0]
+            if r < 0.62: base = gen_ded_queries(rng, 1, ["periodic", "sporadic", "curve", "extrap", "propagated", "jitter"], 0.3)[0]
+            elif r < 0.77: base = families.q_ecrts(rng, None, True)[0]
+            else:
+                base = families.q_rtss(rng, None, True)[0]
+                if rng.random() < 0.5:          # polled callbacks with pairwise distinct KNOWN priorities (the +1 / +[higher priority] terms)
+                    pr = list(range(len(base[2]))); rng.shuffle(pr)
+                    for cb_, p_ in zip(base[2], pr):
+                        if cb_[3] != "timer" and cb_[3] != "es": cb_[3] = ["p", p_]
             hard, how = harden_query(base, rng)
             if how == "none": continue
             qs2 += [base, hard]; meta.append(how)
